@@ -1,6 +1,7 @@
 """ Creating worklist files for the Tecan Freedom EVO.
 """
 import collections.abc
+import copy
 import logging
 import math
 from pathlib import Path
@@ -468,9 +469,13 @@ class BaseWorklist(list):
         volumes: Sequence[float],
         label: Optional[str],
         kwargs: dict,
+        book=None,
     ) -> None:
         """Raises what `comment`, `aspirate_well` or `dispense_well` would raise for these arguments,
-        so that a call that is going to be refused neither changes a labware nor leaves records behind."""
+        so that a call that is going to be refused neither changes a labware nor leaves records behind.
+
+        `book` applies the volume change to a labware: when a volume cannot be written into a record, it is
+        tried on a copy first, because a violation of the labware's own volume limits takes precedence."""
         if isinstance(kwargs.get("tip"), collections.abc.Iterator):
             # a one-shot iterable can be read only once, but is needed for every record
             kwargs["tip"] = tuple(kwargs["tip"])
@@ -504,9 +509,14 @@ class BaseWorklist(list):
 
         # the rack label and the pass-through arguments are the same for every record
         check(labware.name, 1, 0, **kwargs)
-        for well, volume in zip(wells, volumes):
-            if volume > 0 and well in labware.indices:
-                check(labware.name, self._get_well_position(labware, well), volume, **kwargs)
+        try:
+            for well, volume in zip(wells, volumes):
+                if volume > 0 and well in labware.indices:
+                    check(labware.name, self._get_well_position(labware, well), volume, **kwargs)
+        except (ValueError, InvalidOperationError):
+            if book is not None:
+                book(copy.deepcopy(labware))
+            raise
         return
 
     def aspirate(
@@ -539,7 +549,7 @@ class BaseWorklist(list):
         volumes = numpy.array(volumes).flatten("F")
         if len(volumes) == 1:
             volumes = numpy.repeat(volumes, len(wells))
-        self._validate_well_records(labware, wells, volumes, label, kwargs)
+        self._validate_well_records(labware, wells, volumes, label, kwargs, lambda lw: lw.remove(wells, volumes))
         labware.remove(wells, volumes, label)
         self.comment(label)
         for well, volume in zip(wells, volumes):
@@ -580,7 +590,9 @@ class BaseWorklist(list):
         volumes = numpy.array(volumes).flatten("F")
         if len(volumes) == 1:
             volumes = numpy.repeat(volumes, len(wells))
-        self._validate_well_records(labware, wells, volumes, label, kwargs)
+        self._validate_well_records(
+            labware, wells, volumes, label, kwargs, lambda lw: lw.add(wells, volumes, compositions=compositions)
+        )
         labware.add(wells, volumes, label, compositions=compositions)
         self.comment(label)
         for well, volume in zip(wells, volumes):
